@@ -16,6 +16,10 @@ Next ==
        \E x \in {IF c.fam = "storestress" THEN [k \in HitKeys |-> FALSE] ELSE P!StoreHits(c.cfg, c.h)} :
        \E bad \in {IF c.fam = "storestress"
                       THEN (IF P!QuiesceOK(c.h[1]) THEN {} ELSE {"quiescentConsistency"})
+                      ELSE IF c.fam = "storeowner"
+                      \* the log of the only writer of a set of keys, recorded while other goroutines churn the store:
+                      \* linearizability makes it a correct sequential history of the map
+                      THEN (IF R.opsok /\ R.clean THEN {} ELSE {"ownerSequential"})
                       ELSE P!Failing(P!C14_Clauses(c.cfg, R))} :
         /\ (bad # {} => PrintT(<<"FAIL", c.scn, Props, bad>>) /\ PrintT(<<"INFO", c.scn, "first differing event", R.firstbad>>))
         /\ ((c.hasexp /\ c.exp # c.h) => PrintT(<<"DRIFT", c.scn>>))
